@@ -39,6 +39,21 @@ impl<T: ?Sized + Unpin> P<T> {
     const UNPIN: bool = true;
 }
 
+trait NoTimer {
+    const TIMER: bool = false;
+}
+impl<T: ?Sized> NoTimer for P<T> {}
+impl<T: ?Sized + Timer> P<T> {
+    const TIMER: bool = true;
+}
+trait NoLocalTimer {
+    const LOCAL_TIMER: bool = false;
+}
+impl<T: ?Sized> NoLocalTimer for P<T> {}
+impl<T: ?Sized + LocalTimer> P<T> {
+    const LOCAL_TIMER: bool = true;
+}
+
 // lock witnesses
 type MNN = futures_intrusive::verif::NoopLock; // (!Send,!Sync): the local flavour
 type MSS = parking_lot::RawMutex; // (Send,Sync): the thread-safe flavour
@@ -205,7 +220,37 @@ macro_rules! mt_all {
     };
 }
 
+/// which of the two timer traits a service implements: `Timer` hands out the unconditionally
+/// `Send` TimerFuture (which borrows the service), `LocalTimer` the `!Send` LocalTimerFuture
+macro_rules! timer_traits {
+    ($m:ty, $ms:expr) => {
+        println!("impl|GenericTimerService|{}|Timer|{}", $ms, <P<GenericTimerService<$m>>>::TIMER as u8);
+        println!("impl|GenericTimerService|{}|LocalTimer|{}", $ms, <P<GenericTimerService<$m>>>::LOCAL_TIMER as u8);
+        println!(
+            "pair|{}|{}|{}|{}|{}|{}|{}",
+            "Timer::deadline/delay",
+            $ms,
+            "",
+            "",
+            (<P<GenericTimerService<$m>>>::TIMER && <P<TimerFuture<'static>>>::SEND) as u8,
+            <P<GenericTimerService<$m>>>::SYNC as u8,
+            <P<GenericTimerService<$m>>>::SEND as u8
+        );
+        println!(
+            "pair|{}|{}|{}|{}|{}|{}|{}",
+            "LocalTimer::deadline/delay",
+            $ms,
+            "",
+            "",
+            (<P<GenericTimerService<$m>>>::LOCAL_TIMER && <P<LocalTimerFuture<'static>>>::SEND) as u8,
+            <P<GenericTimerService<$m>>>::SYNC as u8,
+            <P<GenericTimerService<$m>>>::SEND as u8
+        );
+    };
+}
+
 fn main() {
+    for_m!(timer_traits);
     for_m!(m_only);
     for_m!(mt_all);
     row!("LocalTimerFuture", "M--", "", "", LocalTimerFuture<'static>);
